@@ -495,7 +495,7 @@ fn totality(acc: &mut Acc, tier: Tier) -> usize {
         let (bname, base) = &bs[b];
         let cfg = &cfgs[c];
         let cfg_name = format!("auth={} access={:?} host={} route={:?}", cfg.keys.is_some(), cfg.access, cfg.host != HostMode::None, cfg.route);
-        let mut run = |a: &mut Acc, devs: &[usize]| {
+        let run = |a: &mut Acc, devs: &[usize]| {
             let labels: Vec<String> = devs.iter().map(|d| format!("{}={}", ax[singles[*d].0].0, ax[singles[*d].0].1[singles[*d].1].0)).collect();
             let id = || format!("{bname}/[{cfg_name}]/{}", labels.join("+"));
             if !a.selected(&id) {
